@@ -136,7 +136,7 @@ func VerifC06_s2_service_level() {
 	w := newRecWriter()
 	switch nondetChoice("method", 3) {
 	case 0:
-		token := nondetString("token", 1) + nondetStringUpTo("token-tail", 2)
+		token := nondetString("token", 1) + nondetStringUpTo("token-tail", deep(2))
 		verifAssume(visible(token))
 		p := &own.BearerPayload{Token: token}
 		req, err := c.BuildBearerRequest(context.Background(), p)
@@ -204,9 +204,9 @@ func VerifC06_s2_implicit_header_with_body() {
 	srv := owns.New(own.NewEndpoints(s), mux, dec, recEncoder(), nil, nil)
 	owns.Mount(mux, srv)
 	c := ownc.NewClient("http", "example.com", nil, nil, nil, false)
-	token := nondetString("token", 1) + nondetStringUpTo("token-tail", 2)
+	token := nondetString("token", 1) + nondetStringUpTo("token-tail", deep(2))
 	verifAssume(visible(token))
-	name := nondetStringUpTo("name", 2)
+	name := nondetStringUpTo("name", deep(2))
 	w := newRecWriter()
 	inline := nondetBool("inline-body")
 	if !inline {
